@@ -140,6 +140,7 @@ type itemOut struct {
 }
 
 type residueOut struct {
+	Conn  int    `json:"conn"`
 	Key   string `json:"key"`
 	IsReq bool   `json:"isreq"`
 	Pid   int    `json:"pid"`
@@ -185,8 +186,17 @@ func newWorld(proto string, conns []int) *world {
 	w.matcher.SetMaxTry(50)
 	for _, c := range conns {
 		st := &mock.Stream{PcapId: fmt.Sprintf("s%d", c)}
-		cip, sip := fmt.Sprintf("10.0.0.%d", c), fmt.Sprintf("10.1.0.%d", c)
-		cport, sport := strconv.Itoa(40000+c), "6379"
+		// distinct 4-tuples that overlap as much as possible: connections 2 and 3 share the client
+		// address, connections 2 and 4 share the client port, all share the server endpoint
+		ipn, portn := c, c
+		switch c {
+		case 3:
+			ipn = 2
+		case 4:
+			portn = 2
+		}
+		cip, sip := fmt.Sprintf("10.0.0.%d", ipn), "10.1.0.1"
+		cport, sport := strconv.Itoa(40000+portn), "6379"
 		w.conns[c] = &connState{id: c, stream: st,
 			emitter: &api.Emitting{AppStats: w.stats, Stream: st, OutputChannel: w.out},
 			counter: &api.CounterPair{},
@@ -217,7 +227,7 @@ func (w *world) collect() result {
 				ReqSize: it.Pair.Request.CaptureSize, RespSize: it.Pair.Response.CaptureSize}
 			for _, c := range w.connList {
 				cs := w.conns[c]
-				if it.ConnectionInfo != nil && it.ConnectionInfo.ClientIP == cs.cid.SrcIP {
+				if it.ConnectionInfo != nil && it.ConnectionInfo.ClientIP == cs.cid.SrcIP && it.ConnectionInfo.ClientPort == cs.cid.SrcPort {
 					o.Conn = c
 					o.Oriented = it.ConnectionInfo.ServerIP == cs.cid.DstIP && it.ConnectionInfo.ClientPort == cs.cid.SrcPort &&
 						it.ConnectionInfo.ServerPort == cs.cid.DstPort && it.Pair.Request.IsRequest && !it.Pair.Response.IsRequest &&
@@ -231,7 +241,23 @@ func (w *world) collect() result {
 		break
 	}
 	w.matcher.GetMap().Range(func(k, v interface{}) bool {
-		ro := residueOut{Key: k.(string), Pid: -1}
+		ro := residueOut{Key: k.(string), Pid: -1, Conn: -1}
+		fields := strings.Split(ro.Key, "_")
+		for _, c := range w.connList {
+			cs := w.conns[c]
+			hasIP, hasPort := false, false
+			for _, f := range fields {
+				if f == cs.cid.SrcIP {
+					hasIP = true
+				}
+				if f == cs.cid.SrcPort {
+					hasPort = true
+				}
+			}
+			if hasIP && hasPort {
+				ro.Conn = c
+			}
+		}
 		if gm, ok := v.(*api.GenericMessage); ok {
 			ro.IsReq = gm.IsRequest
 			ro.Pid = pidOf(gm.Payload)
